@@ -231,7 +231,7 @@ namespace
       ex.preempt_bound = pb; ex.spurious_bound = sb;
       ex.max_executions = cfg.max_exec;
       const double t_end = c._deadline;
-      ex.stop = [&c, t_end]() { return t_end > 0.0 && c.now() > t_end; };
+      ex.stop = [&c, t_end]() { c.heartbeat(); return t_end > 0.0 && c.now() > t_end; };
       g_dead.pb = pb;
       bool determinism_checked = false;
       std::string failure;
